@@ -18,6 +18,20 @@ Streams
   nxg         nx2diagram on mutated graphs (edge / node removed or added) against the model (`nxg`)
   bubble      (oracle only) diagrams with bubbles whose dom/cod are overridden in every way: node census
               on open_bubbles(), every port wired, edges down, open wires increasing, both back-ends
+  attr        drawing ATTRIBUTES (harness/attrlib.py): diagrams grown from every box class that sets one
+              (generic boxes with draw_as_spider / shape / color / drawing_name / tikzstyle_name /
+              draw_as_wires, zx Z X Y H scalar SWAP, quantum gates, Controlled, Ket Bra Bits Measure
+              Encode Discard MixedState Copy Match, tensor Spider, Swap Cup Cap, pregroup Words,
+              cartesian Copy Swap Discard) mixed in one diagram, spiders with 0-3 legs on each side,
+              several shapes and colours side by side; drawn by BOTH back-ends under a schedule of
+              keyword arguments (defaults, every non-default value on its own, random combinations);
+              plus drawing.equation / Equation.draw / Sum.draw and grammar.draw (pregroup_draw).
+              Oracle: no exception; TikZ text and matplotlib artists contain every spider once, at its
+              layout position, with its documented shape / colour / label, every box drawn as a box
+              with its polygon and label.  The GRAPH of these diagrams is compared with the model
+              (`layout` on the arity shadow) and passes the layout oracle.
+  attr_spiders  the calls of nx.draw_networkx_nodes made by MatBackend.draw_spiders (read off the scatter
+              collections on the axis) against Model/Spiders.lean (`spiders`)
 Oracle (the property's own statement, on the real graph and exact coordinates)
   node census, edges = wiring, strictly increasing open wires at every height, vertical wires,
   every edge points down, every box (centre, ports and drawn polygon) strictly between its
@@ -37,6 +51,7 @@ from fractions import Fraction
 from common import Driver, Report, lean_obligations, err_class, ser_diagram
 import dzlib
 import bubblelib
+import attrlib
 from core import Family, Gen, tok_expr, tok_ty, tok_box
 from exprgen import ExprGen
 
@@ -231,6 +246,226 @@ def grow_shape(g, dom, depth, maxw, mode):
     return ("mk", list(dom), list(scan), boxes, offsets)
 
 
+# ------------------------------------------------------------------ drawing attributes (oracle only)
+
+def attr_stream(rep, rng, thorough, tmpdir, plt):
+    """Diagrams from every box class that sets a drawing attribute, drawn by both back-ends under a
+    sample of keyword arguments (see attrlib).  The graph is still compared with the model."""
+    import warnings
+    from discopy import drawing
+    from discopy import grammar
+    n_attr = 180 if not thorough else 1000
+    n_eq = 24 if not thorough else 150
+    n_pg = 20 if not thorough else 120
+    raster_every = 8 if not thorough else 2
+
+    def clean():
+        for f in os.listdir(tmpdir):
+            os.remove(os.path.join(tmpdir, f))
+
+    spider_jobs = []        # (case, driver line, real answer) for the `spiders` command
+
+    def both_backends(case, kw, draw, on_tikz, on_fig, raster, diagrams=(), on_mpl_error=None):
+        """Run `draw(**kw)` with the TikZ back-end (file read back) and the matplotlib back-end
+        (artists inspected on the open figure; rasterised to a PNG when `raster`)."""
+        for backend in ("tikz", "matplotlib"):
+            try:
+                if backend == "tikz":
+                    path = os.path.join(tmpdir, "a.tikz")
+                    draw(to_tikz=True, path=path, **kw)
+                    fails = on_tikz(open(path).read())
+                    if kw.get("use_tikzstyles") and kw.get("output_tikzstyle", True) \
+                            and not os.path.exists(os.path.join(tmpdir, "a.tikzstyles")):
+                        fails.append(("attr_tikz_output_malformed", "no .tikzstyles file written"))
+                    rep.count("attr_render:tikz")
+                else:
+                    with warnings.catch_warnings():
+                        warnings.simplefilter("ignore")
+                        draw(**kw)
+                        fails = on_fig(plt.gcf())
+                        rep.count("attr_render:matplotlib_artists")
+                        if raster:
+                            plt.close("all")
+                            path = os.path.join(tmpdir, "a.png")
+                            draw(path=path, **dict(kw, figsize=kw.get("figsize", (2, 1.5))))
+                            if os.path.getsize(path) == 0:
+                                fails.append(("attr_matplotlib_output_empty", path))
+                            rep.count("attr_render:matplotlib_png")
+                for sig, text in fails:
+                    rep.fail(sig, dict(case, backend=backend), text)
+            except Exception as exc:
+                if backend == "matplotlib" and on_mpl_error is not None:
+                    on_mpl_error(exc)
+                rep.fail(attrlib.known_signature(diagrams, exc) or "attr_%s_backend_raises" % backend,
+                         dict(case, backend=backend), "%s: %s" % (type(exc).__name__, str(exc)[:300]))
+            finally:
+                plt.close("all")
+                clean()
+
+    # ---------------- generate
+    cases = list(attrlib.pinned())
+    for k in range(n_attr):
+        sub = random.Random(rng.getrandbits(64))
+        cases.append(attrlib.gen(sub))
+    sentences = []
+    for k in range(n_pg):
+        sub = random.Random(rng.getrandbits(64))
+        d, words, n_cups = attrlib.gen_sentence(sub)
+        sentences.append((d, words, n_cups, attrlib.pregroup_kw(sub, k)))
+        cases.append(("pregroup", d, ["word"] * len(words) + ["cup"] * n_cups))
+    kws = attrlib.kw_schedule(random.Random(rng.getrandbits(64)), len(cases))
+    lines = ["layout " + tok_expr(attrlib.shadow(d)) for _, d, _ in cases]
+    drv = Driver()
+    try:
+        answers = drv.ask_many(lines)
+    finally:
+        drv.close()
+
+    # ---------------- Diagram.draw
+    censuses = []
+    for k, ((fam, d, tags), kw, line, model) in enumerate(zip(cases, kws, lines, answers)):
+        case = dict(stream="attr", family=fam, diagram=attrlib.safe_repr(d),
+                    boxes=attrlib.describe(d)[:40], kwargs=repr(kw))
+        rep.count("attr_family:" + fam)
+        for t in tags:
+            rep.count("attr_box:" + t)
+        for name, v in kw.items():
+            rep.count("attr_kw:%s=%r" % (name, v))
+        if not kw:
+            rep.count("attr_kw:defaults")
+        try:
+            graph, keys, pos, edges = real_layout(d)
+        except AssertionError:
+            raise
+        except Exception as exc:
+            rep.fail("attr_diagram2nx_raises", case, repr(exc))
+            censuses.append(None)
+            continue
+        real = canon(pos, edges, wiring(d)[0])
+        if real != model:
+            rep.disagree("attr_layout", dict(case, line=line[:2000]), real[:3000], model[:3000])
+        for sig, text in oracle(d, keys, pos, edges):
+            rep.fail(sig, case, text)
+        npos = attrlib.normalise(pos)
+        cen = attrlib.census(d, {i: npos[("box", i, 0)] for i in range(len(d.boxes))})
+        censuses.append(cen)
+        shapes = {s_["shape"] for s_ in cen["spiders"]}
+        rep.count("attr_spider_shapes_in_diagram:%d" % len(shapes))
+        rep.count("attr_spider_colours_in_diagram:%d" % len({s_["color"] for s_ in cen["spiders"]}))
+        rep.count("attr_spiders", len(cen["spiders"]))
+        for b in d.boxes:
+            if getattr(b, "draw_as_spider", False):
+                rep.count("attr_spider_legs:%d_%d" % (len(b.dom), len(b.cod)))
+        rep.case("attr %s %r" % (attrlib.safe_repr(d, 4000), kw), len(d.boxes) >= 2 and len(attrlib.classes(cen)) >= 2)
+        if k % 40 == 0:
+            rep.sample(dict(stream="attr", family=fam, diagram=str(d)[:300], kwargs=repr(kw),
+                            drawn_as=attrlib.classes(cen)), cap=8)
+        # MatBackend.draw_spiders against Model/Spiders.lean: the scatter collections on the axis are
+        # its calls of nx.draw_networkx_nodes (diagrams without controlled gates, which scatter too)
+        sline = attrlib.spiders_line(d.boxes) if not cen["special"] else None
+
+        def on_fig(fig, cen=cen, kw=kw, sline=sline, case=case, npos=npos, n=len(d.boxes)):
+            if sline is not None and fig.axes:
+                spider_jobs.append((case, sline, attrlib.spiders_real(
+                    fig, {i: npos[("box", i, 0)] for i in range(n)})))
+            return attrlib.check_mpl(fig, cen, kw)
+
+        def on_mpl_error(exc, sline=sline, case=case):
+            if sline is not None:
+                spider_jobs.append((case, sline, "err " + err_class(exc)))
+        both_backends(case, kw, lambda **q: d.draw(show=False, **q),
+                      lambda text: attrlib.check_tikz(text, cen, kw), on_fig,
+                      raster=(k % raster_every == 0), diagrams=[d], on_mpl_error=on_mpl_error)
+
+    # ---------------- drawing.equation / Equation.draw / Sum.draw (positions are scaled and padded:
+    # counts only)
+    usable = [(c, cen) for c, cen in zip(cases, censuses) if cen is not None and len(c[1].boxes) <= 6]
+    for k in range(n_eq if usable else 0):
+        sub = random.Random(rng.getrandbits(64))
+        mode = sub.choice(["equation", "equation", "Equation.draw", "sum"])
+        if mode == "sum":
+            (fam, d, _), cen = sub.choice([u for u in usable if attrlib.family(
+                u[0][0] if u[0][0] != "pregroup" else "rigid").addable])
+            terms, cens = [d] * sub.choice([2, 3]), None
+            cens = [cen] * len(terms)
+        else:
+            picks = [sub.choice(usable) for _ in range(sub.choice([2, 2, 3]))]
+            terms, cens = [c[1] for c, _ in picks], [cen for _, cen in picks]
+        cen = attrlib.merge_census(cens)
+        kw = sub.choice(kws)
+        extra = {}
+        if mode != "sum":
+            if sub.random() < 0.5:
+                extra["symbol"] = sub.choice(["$\\mapsto$", ",", ""])
+            if sub.random() < 0.3 and mode == "equation":
+                extra["space"] = sub.choice([0.5, 2])
+        case = dict(stream="attr_equation", mode=mode, terms=[attrlib.safe_repr(t, 600) for t in terms],
+                    kwargs=repr(dict(kw, **extra)))
+        rep.count("attr_equation:" + mode)
+        rep.case("attr_eq %s %s %r" % (mode, case["terms"], kw), False)
+        if mode == "equation":
+            draw = lambda **q: drawing.equation(*terms, show=False, **dict(extra, **q))     # noqa: E731
+        elif mode == "Equation.draw":
+            eq = drawing.Equation(*terms, **({"symbol": extra["symbol"]} if "symbol" in extra else {}))
+            draw = lambda **q: eq.draw(show=False, **q)                                      # noqa: E731
+        else:
+            try:
+                total = terms[0]
+                for t in terms[1:]:
+                    total = total + t
+            except Exception as exc:
+                rep.fail("attr_sum_raises", case, repr(exc))
+                continue
+            draw = lambda **q: total.draw(show=False, **q)                                   # noqa: E731
+        both_backends(case, kw, draw,
+                      lambda text: attrlib.check_tikz(text, cen, kw, exact_positions=False),
+                      lambda fig: attrlib.check_mpl(fig, cen, kw, exact_positions=False),
+                      raster=(k % 6 == 0), diagrams=terms)
+
+    # ---------------- grammar.draw (pregroup_draw): one triangle and one name per word
+    for k, (d, words, n_cups, kw) in enumerate(sentences):
+        case = dict(stream="attr_pregroup", diagram=attrlib.safe_repr(d), kwargs=repr(kw))
+        rep.count("attr_pregroup:words=%d" % len(words))
+        rep.count("attr_pregroup:cups=%d" % min(n_cups, 3))
+        for name, v in kw.items():
+            rep.count("attr_pregroup_kw:%s=%r" % (name, v))
+        rep.case("attr_pregroup %r %r" % (d, kw), False)
+        names = sorted(str(w) for w in words)
+
+        def on_tikz(text, names=names):
+            nodes, polygons = attrlib.parse_tikz(text)
+            out = []
+            if polygons != len(names):
+                out.append(("attr_pregroup_triangles", "%d polygons for %d words" % (polygons, len(names))))
+            got = sorted(n["text"] for n in nodes if n["text"] in names)
+            if got != names:
+                out.append(("attr_pregroup_word_names", "names %r, expected %r" % (got, names)))
+            return out
+
+        def on_fig(fig, names=names):
+            cen = dict(spiders=[], plain=[dict(pos=None, name=n, color="white", box=n) for n in names],
+                       special=[], wires=0)
+            out = attrlib.check_mpl(fig, cen, {}, exact_positions=False)
+            got = sorted(t.get_text() for t in fig.axes[0].texts if t.get_text() in names) \
+                if fig.axes else []
+            if got != names:
+                out.append(("attr_pregroup_word_names", "names %r, expected %r" % (got, names)))
+            return out
+        both_backends(case, kw, lambda **q: grammar.draw(d, **q), on_tikz, on_fig, raster=(k % 5 == 0))
+
+    # ---------------- MatBackend.draw_spiders: the calls it made against the model's
+    drv = Driver()
+    try:
+        sp_answers = drv.ask_many([j[1] for j in spider_jobs])
+    finally:
+        drv.close()
+    for (case, line, real), model in zip(spider_jobs, sp_answers):
+        rep.count("stream:attr_spiders")
+        rep.count("attr_spiders_calls:%s" % (real.split()[1] if real.startswith("ok") else real))
+        if real != model:
+            rep.disagree("attr_spiders", dict(case, line=line[:1500]), real[:1500], model[:1500])
+
+
 def run(tier, seed, replay=None):
     import matplotlib
     matplotlib.use("Agg")
@@ -249,10 +484,20 @@ def run(tier, seed, replay=None):
                 "redundantly, right or wrong), 1 in 8 with one malformation (half of them misuse wires: "
                 "swapped / non-adjacent / repeated / consumed arguments, dropped or permuted return, "
                 "missing or out-of-range offset; else arity, types, signature, fabricated nodes, "
-                "id_factory); non-trivial = planar, >= 2 calls, some call away from position 0")
+                "id_factory); non-trivial = planar, >= 2 calls, some call away from position 0.  "
+                "attr stream: diagrams grown with >> and @ from the box classes that set drawing attributes "
+                "(7 families: monoidal, rigid, zx, circuit, tensor, cartesian, pregroup; 1-8 boxes, "
+                "spiders 0-3 -> 0-3), each drawn by both back-ends with one keyword-argument dict of a "
+                "schedule (defaults, each non-default value alone, random 2-6 combinations); non-trivial = "
+                ">= 2 boxes drawn in >= 2 different ways (spider shape/colour, plain colour, wires, "
+                "brakets/controlled/discard/measure); distinct by repr + kwargs")
     rep.partial = [
-        "back-ends (MatBackend, TikzBackend, draw, draw_box): rendered without raising on the generated "
-        "diagrams (oracle only; matplotlib is outside the model)",
+        "back-ends (MatBackend, TikzBackend, draw, draw_box, quantum.drawing, equation, pregroup_draw): "
+        "oracle only (matplotlib and file output are outside the model) - rendered without raising on the "
+        "generated diagrams, incl. the drawing-attributes stream where the TikZ text and the matplotlib "
+        "artists are inspected (every spider once at its layout position with its shape/colour/label, "
+        "every plain box with polygon and label); only MatBackend.draw_spiders' grouping of spiders into "
+        "calls is modelled (Model/Spiders.lean, theorems draw_spiders_*, stream attr_spiders)",
         "bubbles (Diagram.open_bubbles, bubble_opening/closing branches of add_box) are not modelled: "
         "oracle only, on generated diagrams with bubbles whose dom/cod are overridden in every way "
         "(node census, every port wired, edges down, open wires increasing, both back-ends)",
@@ -273,9 +518,17 @@ def run(tier, seed, replay=None):
         "up to Python's == with the originals",
     ]
     thorough = tier == "thorough"
+    import time
+    phase_t = [time.time()]
+
+    def phase(name):
+        now = time.time()
+        rep.extra.setdefault("phase_seconds", {})[name] = round(now - phase_t[0], 2)
+        phase_t[0] = now
     rep.lean = lean_obligations(PROP, thorough=thorough)
-    n_cases = 900 if not thorough else 6000
-    n_png = 150 if not thorough else None          # None = all
+    phase("lean_obligations")
+    n_cases = 800 if not thorough else 4500
+    n_png = 80 if not thorough else 3000           # rasterised; artists are built for all
     maxd = 10 if not thorough else 26
     rng = random.Random(seed)
     fams = {"monoidal": Family("monoidal"), "rigid": Family("rigid")}
@@ -482,9 +735,10 @@ def run(tier, seed, replay=None):
                 rep.fail("matplotlib_backend_raises", dict(case, diagram=repr(d)[:1500]), repr(exc))
             finally:
                 plt.close("all")
+        phase("layout_nx_render")
         # ---------------- bubbles (oracle only: the bubble branches of add_box are not modelled)
-        n_bub = 140 if not thorough else 1500
-        n_bub_png = 40 if not thorough else n_bub
+        n_bub = 140 if not thorough else 900
+        n_bub_png = 25 if not thorough else 450
         Fm = fams["monoidal"]
         for k in range(n_bub):
             sub = random.Random(rng.getrandbits(64))
@@ -526,6 +780,10 @@ def run(tier, seed, replay=None):
                              case, repr(exc)[:300])
                 finally:
                     plt.close("all")
+        phase("bubbles")
+        # its own generator, derived from the seed: the other streams keep their cases
+        attr_stream(rep, random.Random((seed << 8) ^ 0xA77), thorough, tmpdir, plt)
+        phase("drawing_attributes")
     finally:
         shutil.rmtree(tmpdir, ignore_errors=True)
     rep.count("render:tikz_files", rendered_tikz)
@@ -610,4 +868,5 @@ def run(tier, seed, replay=None):
         rep.case(stream + " " + line, False)
         if real != model:
             rep.disagree(stream, dict(case, line=line[:2500]), real[:3000], model[:3000])
+    phase("diagramize_nx_streams")
     return rep.finish()
